@@ -25,7 +25,7 @@ def _nontrivial(rec):
 
 
 CFG = {
-    "level": "proof",
+    "level": "other",
     "driver_gen": True,
     "technique": "Coq 8.16 theorems about executable Gallina models in which every partial operation is an explicit Panic result "
                  "(totality, guard sufficiency, well-formed re-serialisation) + observation of the compiled code on a malformed-input "
